@@ -138,7 +138,7 @@ let ttype_str (t : ttype) =
     ^ b x.d_literal ^ b x.d_identifier ^ b x.d_expression ^ b x.d_mlit ^ b x.d_anon ^ b x.d_named ^ "]" in
   "OK " ^ String.concat "" (List.map d t.t_shape)
   ^ " mi=" ^ (match t.t_mindex with None -> "None" | Some n -> string_of_int (int_of_nat n))
-  ^ " mn=" ^ (match t.t_mname with None -> "None" | Some s -> implode s)
+  ^ " mn=" ^ (match t.t_mname with None -> "-" | Some s -> implode s)   (* "-" is no identifier; a group may be called None *)
   ^ " an=" ^ b t.t_anon
   ^ " lits=" ^ String.concat "," (List.map (fun (i, z) -> string_of_int (int_of_nat i) ^ ":" ^ z_bin z) t.t_lits)
 let rec value_str = function
